@@ -409,7 +409,7 @@ class Case:
                 if inj['er']:
                     lhs.append('err')
                 body.append('\t\t\t\t%s := %s(%s)' % (', '.join(lhs), inj['name'], ', '.join(callargs)))
-                body.append('\t\t\t\trt.Return(v, %s, %s, %s, %s)' % (
+                body.append('\t\t\t\trt.Return(&v, %s, %s, %s, %s)' % (
                     'true' if inj['cl'] else 'false', 'cl == nil' if inj['cl'] else 'true',
                     'true' if inj['er'] else 'false', 'err' if inj['er'] else 'nil'))
                 if inj['cl']:
